@@ -23,6 +23,7 @@ def classify(msg, kind):
 
 
 def native_exe(ctx, wrapper, defines, sanitize, ndebug=False, extra=()):
+    extra = tuple(extra)
     key = hashlib.md5(repr((wrapper, tuple(defines), sanitize, ndebug, tuple(extra))).encode()).hexdigest()[:10]
     exe = ctx.path('e2nat_%s' % key)
     if os.path.exists(exe): return exe
@@ -60,9 +61,9 @@ def replay_native(ctx, exe, entry, args, choices, syms, timeout=60):
     return 'fails', (out[-120:] + ' ' + (m.group(1) if m else err[-300:])).strip()
 
 
-def diff_check(ctx, ll, wrapper, defines, entry, args, n, ndebug, hooks=None, hook_opts=None):
+def diff_check(ctx, ll, wrapper, defines, entry, args, n, ndebug, hooks=None, hook_opts=None, extra_native=()):
     """native g++ build on seeded random inputs vs the interpreter run concretely on the same inputs"""
-    exe = native_exe(ctx, wrapper, defines, sanitize=False, ndebug=ndebug)
+    exe = native_exe(ctx, wrapper, defines, sanitize=False, ndebug=ndebug, extra=extra_native)
     r = subprocess.run([exe, 'random', entry, str(ctx.seed), str(n)] + [str(a) for a in args], capture_output=True, text=True, timeout=300)
     lines = [l for l in r.stdout.split('\n') if l.startswith('choices')]
     if not lines: return False, 'native random run produced no output: ' + (r.stdout[-200:] + r.stderr[-200:])
@@ -87,18 +88,18 @@ def diff_check(ctx, ll, wrapper, defines, entry, args, n, ndebug, hooks=None, ho
 
 
 def run_config(ctx, name, wrapper, defines, entry, args, time_limit=120, flavour='asserts', diff=12, budget=5_000_000,
-               hooks=None, hook_opts=None, max_paths=10**9, note='', expect_reach=(), jobs=None):
+               hooks=None, hook_opts=None, max_paths=10**9, note='', expect_reach=(), jobs=None, extra_ir=(), extra_native=()):
     """one bounded exploration = one 'query' of the evidence. Returns the aggregate dict (or None when inconclusive)."""
     t0 = time.time()
     rec = dict(name=name, engine='E2 irsym', wrapper=wrapper, defines=list(defines), entry=entry, args=list(args), ir_flavour=flavour, note=note)
     try:
-        ll = ctx.build_ir(wrapper, defines, flavour)
+        ll = ctx.build_ir(wrapper, defines, flavour, extra=extra_ir)
     except BuildError as e:
         ctx.violation('%s:build' % name, 'wrapper %s %s does not compile against the current headers: %s' % (wrapper, list(defines), e.stderr[-700:]), None)
         rec['status'] = 'BUILD'; ctx.queries.append(rec); return None
     try:
         if diff:
-            ok, info = diff_check(ctx, ll, wrapper, defines, entry, args, diff, ndebug=(flavour == 'plain'), hooks=hooks, hook_opts=hook_opts)
+            ok, info = diff_check(ctx, ll, wrapper, defines, entry, args, diff, ndebug=(flavour == 'plain'), hooks=hooks, hook_opts=hook_opts, extra_native=extra_native)
             rec['differential'] = info
             if ok is None:
                 ctx.inconclusive.append('%s: IR construct outside the interpreter: %s' % (name, info)); rec['status'] = 'UNSUPPORTED'; ctx.queries.append(rec); return None
@@ -138,7 +139,7 @@ def run_config(ctx, name, wrapper, defines, entry, args, time_limit=120, flavour
         seen.add(key)
         syms = v.get('model') or [0] * v.get('nsyms', 0)
         try:
-            exe = native_exe(ctx, wrapper, defines, sanitize=True, ndebug=(flavour == 'plain'))
+            exe = native_exe(ctx, wrapper, defines, sanitize=True, ndebug=(flavour == 'plain'), extra=extra_native)
             verdict, info = replay_native(ctx, exe, entry, args, v['choices'], syms)
         except BuildError as e:
             verdict, info = 'nobuild', e.stderr[-300:]
@@ -166,8 +167,8 @@ def run_configs(ctx, specs, jobs_outer=1):
     # prefetch native + IR builds in parallel (they dominate the fixed cost)
     def pre(sp):
         try:
-            ctx.build_ir(sp['wrapper'], sp['defines'], sp.get('flavour', 'asserts'))
-            if sp.get('diff', 12): native_exe(ctx, sp['wrapper'], sp['defines'], sanitize=False, ndebug=(sp.get('flavour', 'asserts') == 'plain'))
+            ctx.build_ir(sp['wrapper'], sp['defines'], sp.get('flavour', 'asserts'), extra=sp.get('extra_ir', ()))
+            if sp.get('diff', 12): native_exe(ctx, sp['wrapper'], sp['defines'], sanitize=False, ndebug=(sp.get('flavour', 'asserts') == 'plain'), extra=sp.get('extra_native', ()))
         except Exception:
             pass
     uniq = {}
